@@ -117,6 +117,20 @@ def run_spec(spec, knobs, choices=None, poll=True, drain_virtual=40.0,
                     # a first run of the same objects; then the documented
                     # attributes are re-assigned and the tree is run again:
                     # only that second run is judged
+                    loop0 = None
+                    if knobs.get("first_run_other_loop"):
+                        # ... in an event loop of its own, closed afterwards:
+                        # nothing the first run leaves in the objects may be
+                        # tied to that loop
+                        loop0 = SimLoop(chooser=chooser, base_time=base,
+                                        tie_shuffle=knobs["tie_shuffle"],
+                                        stall_prob_den=knobs["stall_den"],
+                                        horizon=base + S.horizon(spec))
+                        loop0.set_task_factory(make_task_factory(ctx))
+                        loop0.set_exception_handler(lambda _l, _c: None)
+                        ctx.loop = loop0
+                        asyncio.set_event_loop(loop0)
+                        clock.activate(loop0, knobs["wall_offset"])
                     try:
                         top.run()
                     except (SimDeadlock, SimLivelock, SimHorizon,
@@ -124,6 +138,21 @@ def run_spec(spec, knobs, choices=None, poll=True, drain_virtual=40.0,
                         raise
                     except BaseException:               # pylint: disable=W0703
                         pass
+                    finally:
+                        if loop0 is not None:
+                            left = [t for t in ctx.tasks if not t.done()]
+                            for task in left:
+                                task.cancel()
+                            try:
+                                loop0.horizon = None
+                                if left:
+                                    loop0.drain(10.0)
+                            except SimLivelock:
+                                pass
+                            loop0.close()
+                            ctx.loop = loop
+                            asyncio.set_event_loop(loop)
+                            clock.activate(loop, knobs["wall_offset"])
                     ctx.log('mark', 'top', 'rerun')
                     run.seq_rerun = ctx.seq
                     for nid, attrs in attrs2.items():
